@@ -209,8 +209,6 @@ package geom
 //@   trusted
 //@ func MultiPolygon.Reverse
 //@   trusted
-//@ func LineString.InterpolatePoint
-//@   trusted
 //@ func LineString.InterpolateEvenlySpacedPoints
 //@   trusted
 //@ func lineStringFromCoords
